@@ -23,13 +23,17 @@ package fasthttp
 //@   ghost prevT int = 0
 //@   ghost prevC int = 0
 //@   ghost empty bool = false
+//   The whole scan runs under the read lock: RemoveClients compacts the very array the scan walks (and nils its tail),
+//   so a client looked at after the lock was dropped may be gone, duplicated or nil.
 //@   on call lbClient.PendingRequests -> v:
 //@     nohavoc
+//@     requires[scanned-under-the-lock] held(cc.mu)
 //@   on call atomic.LoadUint64 -> v:
 //@     nohavoc
 //@   end
 //@   loop 1:
 //@     iter prevN = minN; prevT = minT; prevC = minC
+//@     invariant[lock-held-during-the-scan] held(cc.mu)
 //@     atend[not-above-this-client] minN < n || (minN == n && minT <= t)
 //@     atend[never-increases] minN < prevN || (minN == prevN && minT <= prevT)
 //@     atend[first-minimum-wins] n == prevN && t == prevT ==> minC == prevC
